@@ -43,6 +43,10 @@ func (p *planner) analyzeScript() {
 			p.labelsJoinIdx = i
 			break
 		}
+		if ppl.Unwrap != nil {
+			p.labelsJoinIdx = i
+			break
+		}
 	}
 
 	p.renewMainAfter = make([]bool, len(pipeline))
